@@ -51,7 +51,7 @@ def oracle(w, final):
                 "message": f"packet ids {ids[:12]}... are neither per-call {per_call[:12]} nor per-frame {per_frame[:12]}"}
     # timing + liveness: as soon as a connection exists within the lifetime
     ivs = w.conn_intervals()
-    paused = any(t.paused for t in w.net.conns)
+    paused = any(t.paused for t in w.net.live())       # only a live paused stream can hold a sender back
     for c in w.accepted():
         f = seen.get(c["idx"])
         if f is not None:
@@ -69,8 +69,11 @@ def oracle(w, final):
         live = [t for t in w.net.conns if not t._closing and not t.eof_from_peer]
         if live and w.sock.is_connected:
             due = max(c["t"], live[-1].opened_at)
+            if w.p.get("pausing") and not now < c["t"] + c["life"]:
+                # it may have expired behind a stalled earlier write; had it been owed at an earlier
+                # quiescent state (every one of them is judged) it was reported there
+                continue
             if due < c["t"] + c["life"] and now >= due:
-                # an earlier message may legitimately block it only if that one is suspended (pause)
                 return {"clause": "transmitted-when-connected", "signature": "lost-message",
                         "message": f"message #{c['idx']} {c['name']} (accepted at {c['t']}, lifetime {c['life']}) was never "
                                    f"written although connection {live[-1].cid} has been open since {live[-1].opened_at} (now {now})"}
@@ -94,6 +97,8 @@ class Scenario(sc.SockWorld):
             acts.append(("tick",))
         if self.net.pending:
             acts += [("accept",), ("refuse",)]
+            if self.p.get("pausing") and self.npause < 1:
+                acts.append(("accept-paused",))       # the stream opens with back-pressure already on
         live = self.net.live()
         if live:
             if not live[-1].eof_from_peer:
@@ -123,6 +128,10 @@ class Scenario(sc.SockWorld):
             L.advance_to(t if nd is None else min(t, nd))
         elif op in ("accept", "refuse"):
             self.net.resolve(op == "accept")
+        elif op == "accept-paused":
+            self.npause += 1
+            self.net.pause_next = True
+            self.net.resolve(True)
         elif op == "eof":
             self.net.live()[-1].peer_eof()
         elif op == "pause":
@@ -132,7 +141,8 @@ class Scenario(sc.SockWorld):
             self.net.live()[-1].resume()
         elif op == "send":
             k = len(self.calls)
-            self.submit(self.cat[k % len(self.cat)], POL[k % len(POL)])
+            pol = self.p.get("pol", POL)
+            self.submit(self.cat[k % len(self.cat)], pol[k % len(pol)])
         else:
             raise explorer.HarnessError(f"unknown action {a!r}")
 
@@ -144,7 +154,7 @@ class Scenario(sc.SockWorld):
         return oracle(self, final=True)
 
     def fp_extra(self):
-        return super().fp_extra() + (self.npause,)
+        return super().fp_extra() + (self.npause, self.net.pause_next)
 
 
 def linear_family(gen, script):
@@ -228,10 +238,11 @@ def run(tier, seed, part=None):
                        "linear families (k queued during an outage; 300 sends with an outage around the packet-id wrap) "
                        "are enumerated without deviations"]
     if tier == "quick":
-        plans = [({"max_send": 4}, 8, 1), ({"max_send": 3, "pausing": True, "adv": False}, 7, 1)]
+        plans = [({"max_send": 4}, 8, 1), ({"max_send": 3, "pausing": True, "adv": False}, 7, 1),
+                 ({"max_send": 2, "pausing": True, "pol": ["I", "C"]}, 6, 1)]
         cap = 40
     else:
-        plans = [({"max_send": 6}, 10, 2), ({"max_send": 4, "pausing": True}, 9, 2)]
+        plans = [({"max_send": 6}, 10, 2), ({"max_send": 4, "pausing": True}, 9, 2), ({"max_send": 3, "pausing": True, "pol": ["I", "C", "C"]}, 9, 2)]
         cap = 600
     for gen in (4, 5):
         for extra, depth, dev in plans:
